@@ -3,7 +3,7 @@ import VlsModel.Gen.FnTxUtil
 import VlsModel.Gen.FnTxInfo
 import VlsModel.Gen.FnChannel
 import VlsModel.Gen.FnChannelOic
-import VlsModel.Gen.FnFilter
+import VlsModel.Gen.FnFilterC04
 import VlsModel.Model.Bolt3Filter
 import VlsModel.Lemmas.FnGen
 /-
@@ -201,17 +201,17 @@ tag to `FilterResult::Error`; the model's `Env.mismatchIsError` is `filterIsErro
 with early `return` of the source (`Rs.loopM`) is proved equal to the model's first-match recursion, for every rule
 list and every tag. -/
 
-def toGenRule (r : Bolt3.FRule) : Gen.FnFilter.FilterRule :=
+def toGenRule (r : Bolt3.FRule) : Gen.FnFilterC04.FilterRule :=
   { tag := r.tag, is_prefix := r.isPrefix, action := if r.warn then .Warn else .Error }
 
 theorem C04_fn_policy_filter (rules : List Bolt3.FRule) (tag : String) :
-    Gen.FnFilter.PolicyFilter.filter ⟨rules.map toGenRule⟩ tag =
+    Gen.FnFilterC04.PolicyFilter.filter ⟨rules.map toGenRule⟩ tag =
       .ok (if Bolt3.filterIsError rules tag then .Error else .Warn) := by
-  unfold Gen.FnFilter.PolicyFilter.filter
+  unfold Gen.FnFilterC04.PolicyFilter.filter
   induction rules with
   | nil => simp [Bolt3.filterIsError]
   | cons r rs ih =>
-    simp only [List.map_cons, Rs.loopM, toGenRule, Rs.strStartsWith, Bolt3.filterIsError, Bolt3.FRule.matchesTag] at ih ⊢
+    simp only [List.map_cons, Rs.loopM, toGenRule, Bolt3.filterIsError, Bolt3.FRule.matchesTag] at ih ⊢
     by_cases hm : (if r.isPrefix = true then r.tag.isPrefixOf tag else tag == r.tag) = true
     · by_cases hw : r.warn = true <;> simp [hm, hw]
     · simp only [hm, Bool.false_eq_true, if_false, Rs.bind_ok, Rs.pure_eq] at ih ⊢
@@ -219,14 +219,14 @@ theorem C04_fn_policy_filter (rules : List Bolt3.FRule) (tag : String) :
 
 /-- `PolicyFilter::new_permissive()` demotes every tag, `policy-commitment` included (the documented opt-out) -/
 theorem C04_fn_policy_filter_permissive (tag : String) :
-    Gen.FnFilter.PolicyFilter.filter Gen.FnFilter.PolicyFilter.new_permissive tag = .ok .Warn := by
-  have h : Gen.FnFilter.PolicyFilter.new_permissive = ⟨[⟨"", true, true⟩].map toGenRule⟩ := rfl
+    Gen.FnFilterC04.PolicyFilter.filter Gen.FnFilterC04.PolicyFilter.new_permissive tag = .ok .Warn := by
+  have h : Gen.FnFilterC04.PolicyFilter.new_permissive = ⟨[⟨"", true, true⟩].map toGenRule⟩ := rfl
   rw [h, C04_fn_policy_filter]
   simp [Bolt3.filterIsError, Bolt3.FRule.matchesTag, String.isPrefixOf]
 
 /-- with no rule at all (`PolicyFilter::default()`, the default policy) every tag is an error -/
 theorem C04_fn_policy_filter_default (tag : String) :
-    Gen.FnFilter.PolicyFilter.filter ⟨[]⟩ tag = .ok .Error :=
+    Gen.FnFilterC04.PolicyFilter.filter ⟨[]⟩ tag = .ok .Error :=
   C04_fn_policy_filter [] tag
 
 /-- rules that do not match `policy-commitment` leave the equality test of the raw entry point an error — in
